@@ -23,7 +23,7 @@ RULE = ('histories of handler callbacks (update_received, on_update_error, open_
         'event the directory is audited (every non-empty line one JSON object with t, seq, type, msg; exactly one line per logging '
         'callback; seq +1 from line to line across files) and crash points are injected: restart on a snapshot, truncation of the '
         'newest file at EVERY byte offset of the last record, an empty newest file; each followed by a restart (must not exit or raise), '
-        'further events and a final audit; chains of 3-6 generations of the agent on one directory (events, rotations, a crash of a random kind, restart) audited at the end; peers written as IPv4 / IPv6 lower- and upper-case, events whole seconds or fractions apart; plus live sessions with DefaultHandler; distinct = distinct (history, crash point)')
+        'further events and a final audit; chains of 3-6 generations of the agent on one directory (events, rotations, a crash of a random kind, restart) audited at the end; peers written as IPv4 / IPv6 lower- and upper-case, events whole seconds or fractions apart or within one clock reading (bursts); plus live sessions with DefaultHandler; distinct = distinct (history, crash point)')
 ASSUMPTIONS = ['crashes are modelled at file level: the log directory is what survives (fsync after every record is the code under test)',
                'simplejson stand-in encodes bytes as UTF-8 text like simplejson and raises on other bytes']
 SHARD_TIMEOUT = {'quick': 400, 'thorough': 2400}
